@@ -894,8 +894,8 @@ func c01UpstreamReplies(c *Ctx) {
 	for _, u := range ups {
 		u := u
 		b.Up[u].SetMutate(func(q *fakeup.QueryLog, reply []byte) []byte {
-			if !strings.Contains(q.Name, "hostile") {
-				return reply
+			if !strings.Contains(q.Name, "hostile") || strings.Contains(q.Name, "junkfirst") {
+				return reply // (junkfirst: the reply itself is fine, what is in front of it is not)
 			}
 			mu.Lock()
 			defer mu.Unlock()
@@ -926,6 +926,12 @@ func c01UpstreamReplies(c *Ctx) {
 				kind := gen.Pick(gen.New(c.Seed, "c01uk/"+up, i), []string{"ok", "ok", "ok", "half", "http500", "garbage"})
 				if kind == "http500" && !isDoH[up] {
 					kind = "ok"
+				}
+				if (up == "tcp" || up == "dot" || up == "pipe") && kind == "ok" && i%3 == 0 {
+					// an undecodable frame and the real reply behind it, in one segment: whatever the transport
+					// does with the exchange, the octets that follow the bad frame must not be taken for the
+					// reply to a later query
+					kind = "ok-junkfirst"
 				}
 				if isDoH[up] && kind == "ok" && i%2 == 0 {
 					// the DoH server flushes its header before the body: no Content-Length (chunked over
